@@ -110,6 +110,7 @@ def fragment_function(c):
     frag = c.cls.fragment
     first, last = frag["first"].strip(), frag["last"].strip()
     nth = int(frag.get("last_nth", 1))
+    first_nth = [int(frag.get("first_nth", 1))]
 
     def head(st):
         return ast.unparse(st).splitlines()[0].strip()
@@ -117,6 +118,9 @@ def fragment_function(c):
     def search(body):
         for i, st in enumerate(body):
             if head(st) == first:
+                first_nth[0] -= 1
+                if first_nth[0] > 0:
+                    continue
                 seen = 0
                 for j in range(i, len(body)):
                     if head(body[j]) == last:
